@@ -57,6 +57,20 @@ fn pats() -> Vec<Pat> {
                 ("xy\ny\nxy", vec![vec![Some("xy"), Some("x"), Some("y")], vec![Some("y"), None, Some("y")], vec![Some("xy"), Some("x"), Some("y")]], vec!["", "\n", "\n", ""]),
             ],
         },
+        // case-blind matches whose text differs from the pattern's spelling (the match has to
+        // be found before the replacement string is looked at)
+        Pat {
+            text: "\u{3c3}",
+            flags: "i",
+            groups: 0,
+            inputs: vec![("q", vec![], vec!["q"]), ("\u{391}\u{3a3}", vec![vec![Some("\u{3a3}")]], vec!["\u{391}", ""]), ("\u{3c3}-\u{3a3}", vec![vec![Some("\u{3c3}")], vec![Some("\u{3a3}")]], vec!["", "-", ""])],
+        },
+        Pat {
+            text: "s(t)",
+            flags: "i",
+            groups: 1,
+            inputs: vec![("q", vec![], vec!["q"]), ("a\u{17f}t", vec![vec![Some("\u{17f}t"), Some("t")]], vec!["a", ""]), ("ST.st", vec![vec![Some("ST"), Some("T")], vec![Some("st"), Some("t")]], vec!["", ".", ""])],
+        },
         // a group captured on a path that is abandoned contributes nothing
         Pat {
             text: "(?:x|(a))b(c)",
